@@ -49,6 +49,18 @@ func genSynthParams(r *kern.Rng, maxOut int) *ref.SynthParams {
 	p.Shape = r.Intn(4)
 	p.EmptyPct = r.Pick(0, 0, 5, 30)
 	p.SyncPct = r.Pick(0, 0, 10, 50)
+	if r.Pct(15) && maxOut >= 70000 {
+		// block ends right around the points where a 64 KiB / 32 KiB history wraps
+		p.AimOut = r.Pick(65536, 65536, 65536, 98304, 131072, 32768)
+		p.AimOff = r.Range(-6, 6)
+		p.MaxBlocks = r.Pick(3, 4, 6)
+		p.OutLen = p.AimOut + 2000
+		p.EmptyPct, p.SyncPct = 0, 0
+		p.Alphabet = r.Pick(1, 2, 3, 16)
+		if p.AimOut+4000 > maxOut {
+			p.AimOut, p.AimOff = 0, 0
+		}
+	}
 	return p
 }
 
